@@ -5,7 +5,8 @@ From Coq Require Import List Bool Arith ZArith QArith.
 From GV Require Import Base.Outcome Base.AMap Model.GState Model.Creation Model.Query
      Model.Components Model.Cluster Model.Square Spec.ClusterDef Spec.ClusterSpec
      Proofs.ClusterDefOk Proofs.ClusterOk Proofs.ClusterEqOk.
-From GV Require Import Spec.CompSpec Spec.EdgeAdj Spec.History Proofs.WFDefs Proofs.HistoryOk Proofs.ClusterWF.
+From GV Require Import Spec.CompSpec Spec.EdgeAdj Spec.History Proofs.WFDefs Proofs.HistoryOk Proofs.ClusterWF
+     Proofs.ClusterDirOk Proofs.ClusterRangeOk Proofs.SquareOk Proofs.ClusterRangeWF.
 Import ListNotations.
 Close Scope Q_scope.
 
@@ -26,6 +27,20 @@ Section C11.
   Theorem C11_unit_interval : forall (nodes : list T) adjb v,
     (0 <= cc teqb nodes adjb v /\ cc teqb nodes adjb v <= 1)%Q.
   Proof. exact (cc_unit_interval teqb). Qed.
+
+  (* Fagiolo's directed coefficient lies in [0,1], for every node list and arc relation
+     (counting inequality 2T + 2 d_tot + 4 d_bi <= 2 d_tot^2) *)
+  Theorem C11_directed_unit_interval : forall (nodes : list T) adjb i,
+    (0 <= cc_directed teqb nodes adjb i /\ cc_directed teqb nodes adjb i <= 1)%Q.
+  Proof. exact (cc_directed_unit_interval teqb teqb_spec). Qed.
+
+  (* Lind's square coefficient lies in [0,1], for every duplicate-free node list, symmetric
+     adjacency and node of the list (numerator <= denominator as integers) *)
+  Theorem C11_square_unit_interval : forall (nodes : list T) adjb,
+    NoDup nodes -> (forall u v, adjb u v = adjb v u) ->
+    forall v, In v nodes ->
+    (0 <= square_def teqb nodes adjb v /\ square_def teqb nodes adjb v <= 1)%Q.
+  Proof. exact (square_unit_interval teqb teqb_spec). Qed.
 
   (* self-loops never count: two adjacencies that differ only on the diagonal give the same
      neighbours, degrees, triangle counts, clustering, transitivity, generalised degree,
@@ -201,4 +216,51 @@ Section C11_end_to_end.
     transitivity teqb g = Ok q ->
     (q == transitivity_def teqb (get_all_node_names g) (edge_adjb teqb g))%Q.
   Proof. intros s g R. exact (transitivity_wf teqb tltb teqb_spec tltb_total g (C11_reachable_WF s g R)). Qed.
+
+  (* generalized_degree(v): a duplicate-free histogram with an entry (k, c) exactly when
+     c = gen_degree v k (the number of edges at v lying in exactly k triangles) is not 0 *)
+  Theorem C11_generalized_degree_wf : forall (g : gstate), WF g -> forall nn m v,
+    generalized_degree teqb g nn = Ok m ->
+    In v (requested_names g nn) -> In v (get_all_node_names g) ->
+    exists h, lookup teqb v m = Some h /\ NoDup (map fst h) /\
+      forall k, lookup Nat.eqb k h =
+                if Nat.eqb (gen_degree teqb (get_all_node_names g) (edge_adjb teqb g) v k) 0 then None
+                else Some (gen_degree teqb (get_all_node_names g) (edge_adjb teqb g) v k).
+  Proof. exact (generalized_degree_wf teqb tltb teqb_spec tltb_total). Qed.
+
+  (* clustering on a DIRECTED graph = Fagiolo's coefficient over the arcs of the edge list
+     (has_edge_b g u v: there is an edge u -> v in get_all_edges) *)
+  Theorem C11_clustering_directed_wf : forall (g : gstate), WF g -> directed (sp g) = true ->
+    forall nn m v,
+    clustering teqb g nn = Ok m ->
+    In v (names_of g nn) -> In v (get_all_node_names g) ->
+    exists c, lookup teqb v m = Some c /\
+              (c == cc_directed teqb (get_all_node_names g) (has_edge_b teqb g) v)%Q.
+  Proof. exact (clustering_directed_wf teqb tltb teqb_spec). Qed.
+
+  (* square_clustering on an UNDIRECTED graph = Lind's coefficient over the edge list, and the
+     call returns whenever every requested name is a node (there is no error channel) *)
+  Theorem C11_square_wf : forall (g : gstate), WF g -> directed (sp g) = false ->
+    forall nn m v,
+    square_clustering teqb g nn = Ok m ->
+    In v (names_of g nn) -> In v (get_all_node_names g) ->
+    exists c, lookup teqb v m = Some c /\
+              (c == square_def teqb (get_all_node_names g) (edge_adjb teqb g) v)%Q.
+  Proof. exact (square_clustering_wf teqb tltb teqb_spec tltb_total). Qed.
+
+  Theorem C11_square_total_wf : forall (g : gstate), WF g -> directed (sp g) = false ->
+    forall nn, (forall v, In v (names_of g nn) -> In v (get_all_node_names g)) ->
+    exists m, square_clustering teqb g nn = Ok m.
+  Proof. exact (square_clustering_total teqb tltb teqb_spec tltb_total). Qed.
+
+  (* every value returned by clustering (both graph kinds) and by square_clustering
+     (undirected) lies in [0,1]; no hypothesis on the requested names *)
+  Theorem C11_clustering_range_wf : forall (g : gstate), WF g -> forall nn m v c,
+    clustering teqb g nn = Ok m -> lookup teqb v m = Some c -> (0 <= c /\ c <= 1)%Q.
+  Proof. exact (clustering_unit_wf teqb tltb teqb_spec tltb_total). Qed.
+
+  Theorem C11_square_range_wf : forall (g : gstate), WF g -> forall nn m v c,
+    directed (sp g) = false ->
+    square_clustering teqb g nn = Ok m -> lookup teqb v m = Some c -> (0 <= c /\ c <= 1)%Q.
+  Proof. exact (square_unit_wf teqb tltb teqb_spec tltb_total). Qed.
 End C11_end_to_end.
